@@ -493,9 +493,9 @@ func detailOf(cs *Case, r ImplResult) map[string]any {
 // ---- calls made earlier in the same process
 
 type earlierTarget struct {
-	Name                                   string
+	Name                                  string
 	A, B, C, D, E, F, G, H, I, J, K, L, M int
-	Sub                                    struct{ A, B, C, D, E, F, G, H, I, J int }
+	Sub                                   struct{ A, B, C, D, E, F, G, H, I, J int }
 }
 
 var earlierCalls int64
@@ -551,7 +551,9 @@ func EarlierCall(key uint64) {
 			fmt.Fprintf(&b, "print \"%s\" + %d\n", strings.Repeat("s", k%120), k)
 		}
 		var p *bcl.Prog
-		protect(func() { p, _ = bcl.Parse([]byte(b.String()), "earlier", bcl.OptLogger(io.Discard), bcl.OptOutput(io.Discard)) })
+		protect(func() {
+			p, _ = bcl.Parse([]byte(b.String()), "earlier", bcl.OptLogger(io.Discard), bcl.OptOutput(io.Discard))
+		})
 		if p == nil {
 			return
 		}
@@ -563,7 +565,9 @@ func EarlierCall(key uint64) {
 		protect(func() { p.Dump(&d) })
 		if d.Len() > 10 {
 			cut := 5 + int(key>>8)%(d.Len()-5)
-			protect(func() { bcl.LoadProg(bytes.NewReader(d.Bytes()[:cut]), "earlier", bcl.OptLogger(io.Discard), bcl.OptOutput(io.Discard)) })
+			protect(func() {
+				bcl.LoadProg(bytes.NewReader(d.Bytes()[:cut]), "earlier", bcl.OptLogger(io.Discard), bcl.OptOutput(io.Discard))
+			})
 		}
 	}
 }
